@@ -648,6 +648,9 @@ impl<'a, P: Prefix> AsViewMut<'a, P, ()> for &'a mut PrefixSet<P> {
 pub struct TrieViewMut<'a, P, T> {
     table: &'a Table<P, T>,
     loc: ViewLoc<P>,
+    // The view hands out `&mut T` (and owned `T`). This marker makes the auto traits (`Send`,
+    // `Sync`) behave accordingly, i.e., `TrieViewMut` is only `Send` if `T` is `Send`.
+    marker: std::marker::PhantomData<&'a mut T>,
 }
 
 impl<'a, P, T> TrieViewMut<'a, P, T> {
@@ -658,7 +661,11 @@ impl<'a, P, T> TrieViewMut<'a, P, T> {
     ///   contained within another `TrieViewMut` or `TrieView`. Also, you must guarantee that no
     ///   `TrieView` is contained within a `TrieViewMut`.
     unsafe fn new(table: &'a Table<P, T>, loc: ViewLoc<P>) -> Self {
-        Self { table, loc }
+        Self {
+            table,
+            loc,
+            marker: std::marker::PhantomData,
+        }
     }
 }
 
